@@ -1,6 +1,7 @@
 """Fact model over the JSON emitted by engine/mirfacts: bodies, CFG, dominators,
 reachability, expression (def-use) trees.  No property logic here."""
 import json
+import os
 import re
 from collections import defaultdict, deque
 
@@ -367,11 +368,57 @@ class Facts:
         self.statics = self.j["statics"]
         self._closure_sites = None
         self._callers = None
+        self._resolve_named_consts()
+        self.originals = {}
+        self.inline_log = []
+        self.absorbed = set()
+        if os.environ.get("VERIF_NO_INLINE") != "1":
+            import inline
+            inline.normalize(self)
+
+    STD_CONSTS = {"core::num::<impl u8>::MAX": 0xff, "core::num::<impl u16>::MAX": 0xffff, "core::num::<impl u32>::MAX": 0xffffffff,
+                  "core::num::<impl u64>::MAX": 0xffffffffffffffff, "core::num::<impl usize>::MAX": 0xffffffffffffffff,
+                  "core::num::<impl u8>::MIN": 0, "core::num::<impl u16>::MIN": 0, "core::num::<impl u32>::MIN": 0,
+                  "core::num::<impl u64>::MIN": 0, "core::num::<impl usize>::MIN": 0}
+
+    def _resolve_named_consts(self):
+        """a named integer constant (`const NODE: u8 = 0x20;`, `u16::MAX`) used as an operand is the same operand as
+        its literal: annotate the operand with the value so that rules reading raw operands see through the name"""
+        vals = {}
+        for b in self.bodies:
+            if not b.kind.startswith("Const") and b.kind != "AssocConst":
+                continue
+            blk = b.blocks[0] if b.blocks else None
+            if blk is None or blk["t"]["k"] != "return":
+                continue
+            asg = [s for s in blk["s"] if s["k"] == "assign" and s["lhs"]["l"] == 0 and not s["lhs"]["p"]]
+            if len(asg) == 1 and asg[0]["rv"]["k"] == "use" and asg[0]["rv"]["op"]["k"] == "const" and "int" in asg[0]["rv"]["op"]:
+                vals[b.def_] = asg[0]["rv"]["op"]
+
+        def walk_json(x):
+            if isinstance(x, dict):
+                if x.get("k") == "const" and "def" in x and "promoted" not in x and "fn" not in x and "int" not in x:
+                    src = vals.get(x["def"])
+                    if src is not None:
+                        x["int"] = src["int"]
+                        x["named"] = x["v"]
+                        x["v"] = src["v"]
+                    elif canon(x["def"]) in self.STD_CONSTS:
+                        x["int"] = str(self.STD_CONSTS[canon(x["def"])])
+                        x["named"] = x["v"]
+                for v in x.values():
+                    walk_json(v)
+            elif isinstance(x, list):
+                for v in x:
+                    walk_json(v)
+        for b in self.bodies:
+            walk_json(b.blocks)
 
     # ---------------------------------------------------------------- groups
     def code_bodies(self):
         """bodies that are real code (functions, closures, coroutines), not statics/consts/promoteds"""
-        return [b for b in self.bodies if b.kind in ("Fn", "AssocFn", "Closure", "SyntheticCoroutineBody")]
+        ab = getattr(self, "absorbed", ())
+        return [b for b in self.bodies if b.kind in ("Fn", "AssocFn", "Closure", "SyntheticCoroutineBody") and b.def_ not in ab]
 
     def group(self, root_cdef):
         """root fn + all nested closures/coroutines (not promoteds / statics)"""
@@ -450,8 +497,14 @@ class Facts:
             for b in self.bodies:
                 for bi, blk in enumerate(b.blocks):
                     for si, s in enumerate(blk["s"]):
-                        if s["k"] == "assign" and s["rv"]["k"] == "agg" and s["rv"]["ak"] in ("closure", "coroutine", "coroutine_closure"):
+                        if s["k"] == "assign" and s["rv"]["k"] == "agg" and s["rv"]["ak"] in ("closure", "coroutine", "coroutine_closure") and not s.get("inl"):
                             cs.setdefault(s["rv"]["def"], []).append((b, bi, si, s["rv"]["ops"], s))
+            # a closure built inside a helper that has been spliced into its callers is evaluated in the callers'
+            # context (deepest splice), where the helper's parameters are bound to the actual arguments
+            for d, sites in cs.items():
+                depth = [len(pb.blocks[bi].get("ctx", [])) for (pb, bi, si, ops, s) in sites]
+                if max(depth) > 0:
+                    cs[d] = [x for x, k in zip(sites, depth) if k == max(depth)]
             self._closure_sites = cs
         return self._closure_sites
 
@@ -540,6 +593,8 @@ class ExprBuilder:
                 if pb is not None:
                     return self.local(pb, 0, depth + 1)
                 return ("unknown", "promoted")
+            if "def" in o and "int" in o:
+                return ("const", o["v"], int(o["int"]), o["ty"])
             if "def" in o:
                 cb = self.facts.by_def.get(o["def"])
                 if cb is not None and cb.kind.startswith("Const"):
